@@ -9,6 +9,7 @@ import (
 
 	"github.com/pentops/j5/j5types/date_j5t"
 	"github.com/pentops/j5/lib/j5codec"
+	"github.com/pentops/j5/lib/j5schema"
 )
 
 // populateField sets a plain, valid, non-default value in field fd of m. Nested messages are
@@ -79,12 +80,14 @@ func singleValue(fd protoreflect.FieldDescriptor, depth int, newMsg func() proto
 	case protoreflect.BytesKind:
 		return protoreflect.ValueOfBytes([]byte{1, 2, 3}), true
 	case protoreflect.EnumKind:
+		// a defined, non-zero value (zero is "unset", and not even an option under no_default)
 		vs := fd.Enum().Values()
-		n := vs.Get(0).Number()
-		if vs.Len() > 1 {
-			n = vs.Get(1).Number()
+		for i := 1; i < vs.Len(); i++ {
+			if vs.Get(i).Number() != 0 {
+				return protoreflect.ValueOfEnum(vs.Get(i).Number()), true
+			}
 		}
-		return protoreflect.ValueOfEnum(n), true
+		return protoreflect.Value{}, false
 	case protoreflect.MessageKind:
 		v := newMsg()
 		sub := v.Message()
@@ -127,6 +130,7 @@ func singleValue(fd protoreflect.FieldDescriptor, depth int, newMsg func() proto
 			}
 			fs := md.Fields()
 			seenOneof := map[string]bool{}
+			wrapper := j5schema.IsOneofWrapper(md)
 			for i := 0; i < fs.Len(); i++ {
 				f := fs.Get(i)
 				if o := f.ContainingOneof(); o != nil && !o.IsSynthetic() {
@@ -135,7 +139,9 @@ func singleValue(fd protoreflect.FieldDescriptor, depth int, newMsg func() proto
 					}
 					seenOneof[string(o.Name())] = true
 				}
-				populateField(sub, f, depth-1)
+				if populateField(sub, f, depth-1) && wrapper {
+					break // a J5 oneof wrapper holds exactly one value
+				}
 			}
 		}
 		return v, true
